@@ -13,13 +13,22 @@ Added probe families (s1):
     to another width, further definitions with pointers (often to the same target types) are loaded; every newly loaded
     definition must have the C layout for the width in effect - the layout a fresh instance gives - and agreeing sizes
     (s1_hist.pointer_history).
+Added probe family (round 7, v8_c04):
+  * size agreement and C layout AFTER INCREMENTAL DEFINITION: a struct (or union) is loaded from text with its first members
+    only (compiled or interpreted, packed or aligned, either byte order, any pointer width) and then extended on the same
+    instance by single `T.add_field(...)` commits and by `with T.start_update():` batches of 1..3 members (scalars, enums,
+    pointers, arrays, nested / anonymous aggregates, bit-fields that may continue the last storage unit).  After the commits
+    T is judged like a one-shot definition of the members declared so far: layout vs C rule / ctypes / Lean model, len(T) =
+    sizeof(T) = bytes consumed (offset 0 and a later aligned offset) = len(dumps()), T[3] = 3*len(T); definitions loaded
+    afterwards that use sizeof(T) or embed T (T t; T t[n]) must see the extended type.
 """
 from __future__ import annotations
 
 import ctypes
 import itertools
+import sys
 
-from .. import common, defs, impl, refimpl, s1_hist, s1_mixed
+from .. import common, defs, impl, refimpl, s1_hist, s1_mixed, v8_c04
 from ..common import Case, Result, mkrng
 from ..structprops import Engine, load, is_dynamic, bits_after_dynamic, small_unit_bits, has_union, has, rand_bytes
 
@@ -252,7 +261,9 @@ def run(env) -> Result:
                 "pointer width; compared: real len/alignment/field offsets vs ctypes (C ABI) vs textbook rule vs Lean model; size agreement "
                 "len(T) = sizeof(T) = bytes parsed = bytes dumped, also for every nested struct/union class on its own and as array element "
                 "and for the definition with named (hoisted) sub-definitions; pointer-width histories on one instance (load, change "
-                "cs.pointer, load again). distinct = (definition text, align, pointer); non-trivial = >= 2 fields or a composite field")
+                "cs.pointer, load again); incremental definitions: T loaded from text with its first members, then extended by add_field "
+                "commits and start_update batches - layout and size agreement (also T[3], sizeof(T) in later definitions, later "
+                "structures embedding T) after the commits. distinct = (definition text, align, pointer); non-trivial = >= 2 fields or a composite field")
     eng = Engine(env, res, "C04")
     rnd = mkrng(env["seed"], "c04")
     tier = env["tier"]
@@ -303,6 +314,7 @@ def run(env) -> Result:
         if len(eng.lines) > 4000:
             eng.flush()
     seen_ct += pointer_histories(eng, res, mkrng(env["seed"], "c04-pointer-history"), tier)
+    v8_c04.run(sys.modules[__name__], eng, res, mkrng(env["seed"], "c04-extended"), tier)
     eng.flush()
     res.notes.append(f"{seen_ct} layouts were also compared with ctypes (platform ABI)")
     res.sample({"definition": defs.render_struct("T", trees[-1]), "aligned_layout_example": "see feature histogram"})
